@@ -215,7 +215,20 @@ class Program:
             if op in ("filter", "filter_out"):
                 mask = [rng.random() < 0.5 for _ in range(nrow)]
                 arg = rng.choice([lambda: di.Vector.fast(mask, bool), lambda: np.array(mask, bool), lambda: (lambda d: np.array(mask, bool))])()
-                call = lambda: getattr(df, op)(arg)
+                kwc = {}
+                boolcols = [n_ for n_ in names if canon.dtype_kind(dict.__getitem__(df, n_)) == "bool" and n_.isidentifier()]
+                if rng.random() < 0.3 and nrow:
+                    # rows given together with a column=value condition, rows possibly being a column of the frame itself
+                    simple = [n_ for n_ in names if canon.dtype_kind(dict.__getitem__(df, n_)) in ("int", "bool", "float", "string") and n_.isidentifier() and n_ not in ("rows",)]
+                    if simple:
+                        cn = rng.choice(simple)
+                        kwc = {cn: np.asarray(dict.__getitem__(df, cn))[rng.randrange(nrow)]}
+                    if boolcols and rng.random() < 0.5:
+                        arg = dict.__getitem__(df, rng.choice(boolcols))
+                    self.mon.count("filter-rows-and-keywords")
+                if isinstance(arg, np.ndarray):
+                    operands.append(arg)
+                call = lambda: getattr(df, op)(arg, **kwc)
             elif op in ("slice", "slice_off"):
                 idx = [rng.randrange(nrow) for _ in range(rng.randint(0, nrow + 1))] if nrow else []
                 cols = None
